@@ -505,3 +505,22 @@ Proof.
   split; [exact Ht|]. split; [exact Hok|]. split; [vm_compute; discriminate|].
   apply (formats_agree_normalised _ _ (wb_map xl_grid) (fun x => x) (fun b => b) (fun b => b)); auto.
 Qed.
+
+(* at the regenerated newline mode of load_csv *)
+Lemma load_csv_translated_true : load_csv_translated = true.
+Proof. reflexivity. Qed.
+
+Theorem formats_agree_normalised_tables :
+  forall (X J : Type) (xl_write : workbook (table str str) -> X) (xl_load : X -> workbook (list (list xcell)))
+         (json_dumps : workbook jsheet -> J) (json_loads : J -> workbook jsheet),
+  (forall wb, xl_load (xl_write wb) = wb_map xl_grid wb) ->
+  (forall b, json_loads (json_dumps b) = b) ->
+  forall wb : workbook (table str str),
+  Forall (fun p => sheet_ok_tr (snd p)) wb ->
+  via_csv load_csv_translated wb = Ok (wb_map tr_table wb) /\
+  via_xlsx X xl_write xl_load wb = Ok (wb_map lift_table (wb_map tr_table wb)) /\
+  via_json J json_dumps json_loads load_csv_translated wb = Ok (wb_map tr_table wb).
+Proof.
+  intros X J xw xlo jd jl Hx Hj wb Hok.
+  exact (formats_agree_normalised X J xw xlo jd jl Hx Hj load_csv_translated wb load_csv_translated_true Hok).
+Qed.
